@@ -42,6 +42,10 @@ type Case struct {
 	// with onError "none" (errors swallowed: conflicts must not panic at all); 3: Configuration with
 	// the default onError (registration errors panic with the error value - the only panics allowed)
 	ViaConfig int `json:"viaConfig,omitempty"`
+	// Suffix is appended to every metric name of the history: valid as it is ("X", "_9", "__", a
+	// long one) or containing characters the Prometheus sanitizer rewrites (".x", "-y", "x.y-z"), in
+	// which case the family is exposed under the sanitized name
+	Suffix string `json:"suffix,omitempty"`
 }
 
 // pools the generated specs are drawn from (then de-duplicated and sorted): the fixed specs of the
@@ -180,6 +184,9 @@ func gen(t *rapid.T) Case {
 		}
 		c.Ops = append(c.Ops, op)
 	}
+	if rapid.IntRange(0, 2).Draw(t, "suffix?") == 0 {
+		c.Suffix = rapid.SampledFrom([]string{"X", "_9", "__", "ABC_def", ".x", "-y", "x.y-z", "_" + strings.Repeat("n", 120)}).Draw(t, "suffix")
+	}
 	return c
 }
 
@@ -287,6 +294,16 @@ func run(c Case) (pbt.Outcome, error) {
 		}
 		return model[fam][lk]
 	}
+	// the exposed family name of a metric name: the Prometheus sanitizer keeps alphanumerics and '_'
+	fam := func(n string) string {
+		b := []byte(n + c.Suffix)
+		for i, ch := range b {
+			if !(ch >= 'a' && ch <= 'z' || ch >= 'A' && ch <= 'Z' || ch >= '0' && ch <= '9' || ch == '_') {
+				b[i] = '_'
+			}
+		}
+		return string(b)
+	}
 	boundary, multi, cross := false, false, false
 	preregs := 0
 	nconf := 0
@@ -296,20 +313,24 @@ func run(c Case) (pbt.Outcome, error) {
 		var p interface{}
 		switch op.K {
 		case "counter":
-			name := fmt.Sprintf("c_%d", op.N)
-			p = try(func() { sc.Counter(name).Inc(op.I) })
+			raw := fmt.Sprintf("c_%d", op.N) + c.Suffix
+			name := fam(fmt.Sprintf("c_%d", op.N))
+			p = try(func() { sc.Counter(raw).Inc(op.I) })
 			get(name, labels).counter += float64(op.I)
 		case "gauge":
-			name := fmt.Sprintf("g_%d", op.N)
-			p = try(func() { sc.Gauge(name).Update(op.F.V()) })
+			raw := fmt.Sprintf("g_%d", op.N) + c.Suffix
+			name := fam(fmt.Sprintf("g_%d", op.N))
+			p = try(func() { sc.Gauge(raw).Update(op.F.V()) })
 			s := get(name, labels)
 			s.gauge, s.hasG = uint64(op.F), true
 		case "timer":
-			name := fmt.Sprintf("t_%d", op.N)
-			p = try(func() { sc.Timer(name).Record(time.Duration(op.I)) })
+			raw := fmt.Sprintf("t_%d", op.N) + c.Suffix
+			name := fam(fmt.Sprintf("t_%d", op.N))
+			p = try(func() { sc.Timer(raw).Record(time.Duration(op.I)) })
 			get(name, labels).timers++
 		case "vhist":
-			name := fmt.Sprintf("hv_%d", op.Spec)
+			raw := fmt.Sprintf("hv_%d", op.Spec) + c.Suffix
+			name := fam(fmt.Sprintf("hv_%d", op.Spec))
 			if len(c.VSpecs) == 0 {
 				continue
 			}
@@ -317,7 +338,7 @@ func run(c Case) (pbt.Outcome, error) {
 			for _, b := range c.VSpecs[op.Spec%len(c.VSpecs)] {
 				sp = append(sp, b.V())
 			}
-			p = try(func() { sc.Histogram(name, tally.ValueBuckets(append([]float64(nil), sp...))).RecordValue(op.F.V()) })
+			p = try(func() { sc.Histogram(raw, tally.ValueBuckets(append([]float64(nil), sp...))).RecordValue(op.F.V()) })
 			s := get(name, labels)
 			s.spec = sp
 			s.samples = append(s.samples, op.F.V())
@@ -327,7 +348,8 @@ func run(c Case) (pbt.Outcome, error) {
 				}
 			}
 		case "dhist":
-			name := fmt.Sprintf("hd_%d", op.Spec)
+			raw := fmt.Sprintf("hd_%d", op.Spec) + c.Suffix
+			name := fam(fmt.Sprintf("hd_%d", op.Spec))
 			if len(c.DSpecs) == 0 {
 				continue
 			}
@@ -336,7 +358,7 @@ func run(c Case) (pbt.Outcome, error) {
 				sp = append(sp, time.Duration(b))
 			}
 			p = try(func() {
-				sc.Histogram(name, tally.DurationBuckets(append([]time.Duration(nil), sp...))).RecordDuration(time.Duration(op.I))
+				sc.Histogram(raw, tally.DurationBuckets(append([]time.Duration(nil), sp...))).RecordDuration(time.Duration(op.I))
 			})
 			s := get(name, labels)
 			s.spec, s.dspec = nil, c.DSpecs[op.Spec%len(c.DSpecs)]
@@ -356,11 +378,11 @@ func run(c Case) (pbt.Outcome, error) {
 			p = try(func() {
 				switch op.What {
 				case "counter":
-					_, _ = rep.RegisterCounter(fmt.Sprintf("c_%d", op.N), keys, "pre-registered")
+					_, _ = rep.RegisterCounter(fam(fmt.Sprintf("c_%d", op.N)), keys, "pre-registered")
 				case "gauge":
-					_, _ = rep.RegisterGauge(fmt.Sprintf("g_%d", op.N), keys, "pre-registered")
+					_, _ = rep.RegisterGauge(fam(fmt.Sprintf("g_%d", op.N)), keys, "pre-registered")
 				case "timer":
-					_, _ = rep.RegisterTimer(fmt.Sprintf("t_%d", op.N), keys, "pre-registered", nil)
+					_, _ = rep.RegisterTimer(fam(fmt.Sprintf("t_%d", op.N)), keys, "pre-registered", nil)
 				case "xcounter":
 					_, _ = rep.RegisterCounter(fmt.Sprintf("p_%d", op.N), keys, "pre-registered")
 				case "xgauge":
@@ -631,7 +653,7 @@ func run(c Case) (pbt.Outcome, error) {
 func TestC17(t *testing.T) {
 	pbt.Main(t, pbt.Prop[Case]{
 		ID: "C17", Name: "prometheus",
-		Rule: "rapid-generated histories (1..30 ops) on a tally root whose cached reporter is the Prometheus reporter on a fresh registry (separator '_', Prometheus sanitizer; timers as summaries or histograms; error callback returning or panicking with a sentinel; in a quarter of the cases the reporter is built through Configuration.NewReporter - harness callback, onError \"none\" where nothing may panic, or the default onError where only the registration error itself may be the panic value): counters (non-negative deltas), gauges (hostile float bits), timers, value and duration histograms with GENERATED strictly increasing finite specs (1..8 bounds from pools of decimals, huge/tiny magnitudes, one-ulp neighbours; durations ns..11 days incl. millisecond-granular bounds above 1 s) and samples on / one ulp or ns above and below / around the bounds, 1..4 tagged scopes with the same tag keys and different values, report passes, pre-registration of counter/gauge/timer families through the reporter's Register* API with the tag keys in either order (before or after first use; values must be exposed as without it), and conflict programs (a name reused for another kind: every ordered pair of counter, gauge, timer and histogram; or with other tag keys) whose result is then used through every method. Oracle after a final pass: Gather() shows counter == sum, gauge == last update (bits), cumulative bucket counts == #samples <= bound with bounds == spec (durations in seconds) and total == #samples, timer count == #values, one family per name and one series per tag-value combination; conflicts: the rejected registration reaches the error callback, the same request made on the reporter directly reaches it again and returns a non-nil usable metric, no panic other than the sentinel, at any point, and a rejected registration with other tag keys leaves the first, accepted family exposed with its values. Non-trivial: a sample equal to a bound, or >=2 series in a family, or a cross-kind/tag-key conflict. Distinct: FNV-64 of the case JSON.",
+		Rule: "rapid-generated histories (1..30 ops) on a tally root whose cached reporter is the Prometheus reporter on a fresh registry (separator '_', Prometheus sanitizer; timers as summaries or histograms; error callback returning or panicking with a sentinel; in a quarter of the cases the reporter is built through Configuration.NewReporter - harness callback, onError \"none\" where nothing may panic, or the default onError where only the registration error itself may be the panic value): metric names with a generated suffix (valid as it is, or with characters the Prometheus sanitizer rewrites; the family is then exposed under the sanitized name); counters (non-negative deltas), gauges (hostile float bits), timers, value and duration histograms with GENERATED strictly increasing finite specs (1..8 bounds from pools of decimals, huge/tiny magnitudes, one-ulp neighbours; durations ns..11 days incl. millisecond-granular bounds above 1 s) and samples on / one ulp or ns above and below / around the bounds, 1..4 tagged scopes with the same tag keys and different values, report passes, pre-registration of counter/gauge/timer families through the reporter's Register* API with the tag keys in either order (before or after first use; values must be exposed as without it), and conflict programs (a name reused for another kind: every ordered pair of counter, gauge, timer and histogram; or with other tag keys) whose result is then used through every method. Oracle after a final pass: Gather() shows counter == sum, gauge == last update (bits), cumulative bucket counts == #samples <= bound with bounds == spec (durations in seconds) and total == #samples, timer count == #values, one family per name and one series per tag-value combination; conflicts: the rejected registration reaches the error callback, the same request made on the reporter directly reaches it again and returns a non-nil usable metric, no panic other than the sentinel, at any point, and a rejected registration with other tag keys leaves the first, accepted family exposed with its values. Non-trivial: a sample equal to a bound, or >=2 series in a family, or a cross-kind/tag-key conflict. Distinct: FNV-64 of the case JSON.",
 		Gen:  gen, Run: run, HangAfter: 20 * time.Second,
 	})
 }
